@@ -37,6 +37,9 @@ pub struct FaultCase {
 	/// (file-post-create, file-post-edit, post-operation): it runs for each of them
 	#[serde(default)]
 	pub mixed_hooks: bool,
+	/// the certificate has random_early_renew = "3s" (scheduling passes of due and failed certificates go through the jitter code)
+	#[serde(default)]
+	pub early_renew: bool,
 }
 
 pub struct Attempt {
@@ -94,6 +97,10 @@ pub fn actions_for(pos: &Pos) -> Vec<(Action, usize)> {
 		}
 	}
 	v.push((Action::AcmeNoType, 1));
+	// problem documents whose optional detail is empty or absent, or which are several kilobytes long
+	v.push((Action::AcmeEmptyDetail("unauthorized".into()), 1));
+	v.push((Action::AcmeNoDetail("malformed".into()), 1));
+	v.push((Action::AcmeHugeDetail("unauthorized".into()), 1));
 	for c in [400u16, 404, 500, 503] {
 		v.push((Action::NonJson(c), 1));
 	}
@@ -146,6 +153,7 @@ pub fn actions_for(pos: &Pos) -> Vec<(Action, usize)> {
 		Pos::Cert => {
 			v.push((Action::NonPemBody, 1));
 			v.push((Action::DamagedChain, 1));
+			v.push((Action::ReversedChain, 1));
 		}
 		Pos::NewOrder => v.push((Action::ForgetAccount, 1)),
 		_ => {}
@@ -237,6 +245,7 @@ fn run_case_in(case: &FaultCase, acmed: &std::path::Path, dir: &std::path::Path,
 		"account": [acct],
 		"hook": hooks,
 		"certificate": [{"name": "c1", "account": "a1", "endpoint": "e1", "key_type": "ecdsa-p256", "kp_reuse": case.kp_reuse,
+			"random_early_renew": if case.early_renew { "3s" } else { "0s" },
 			"hooks": cert_hooks, "env": {bb::CERT_ENV: "c1"},
 			"identifiers": IDS.iter().map(|(n, c)| json!({"dns": n, "challenge": c})).collect::<Vec<_>>()}],
 	});
